@@ -383,6 +383,7 @@ type Inst struct {
 	Router *mux.Router
 	DSN    string
 	other  *sql.DB // a second connection to the same database file, for lock faults
+	oconn  *sql.Conn
 }
 
 // FileDSN is the data source name of a file database on which lock faults can be injected: no busy
@@ -402,19 +403,25 @@ func (i *Inst) Hold(fault string) (release func(), ok bool) {
 	if !strings.HasPrefix(i.DSN, "file:") || strings.Contains(i.DSN, "mode=memory") {
 		panic(infra("lock faults need a file database, have " + i.DSN))
 	}
-	if i.other == nil {
+	ctx := context.Background()
+	if i.oconn == nil {
+		// opened once and kept: opening executes PRAGMAs that need a SHARED lock
 		db, err := sql.Open("sqlite3", i.DSN)
 		if err != nil {
 			panic(infra(err.Error()))
 		}
 		db.SetMaxOpenConns(1)
-		i.other = db
+		conn, err := db.Conn(ctx)
+		if err != nil {
+			db.Close()
+			if strings.Contains(err.Error(), "locked") {
+				return func() {}, false
+			}
+			panic(infra(err.Error()))
+		}
+		i.other, i.oconn = db, conn
 	}
-	ctx := context.Background()
-	conn, err := i.other.Conn(ctx)
-	if err != nil {
-		panic(infra(err.Error()))
-	}
+	conn := i.oconn
 	var stmts []string
 	switch fault {
 	case "commit":
@@ -438,7 +445,6 @@ func (i *Inst) Hold(fault string) (release func(), ok bool) {
 			if k > 0 {
 				_, _ = conn.ExecContext(ctx, "ROLLBACK")
 			}
-			conn.Close()
 			if strings.Contains(err.Error(), "locked") || strings.Contains(err.Error(), "busy") {
 				return func() {}, false
 			}
@@ -449,7 +455,6 @@ func (i *Inst) Hold(fault string) (release func(), ok bool) {
 		if _, err := conn.ExecContext(ctx, "ROLLBACK"); err != nil {
 			panic(infra("cannot release the " + fault + " lock: " + err.Error()))
 		}
-		conn.Close()
 	}, true
 }
 
@@ -481,6 +486,9 @@ func (w *World) NewInst(dsn string, maxConns int) (*Inst, error) {
 
 // Close releases the database.
 func (i *Inst) Close() {
+	if i.oconn != nil {
+		i.oconn.Close()
+	}
 	if i.other != nil {
 		i.other.Close()
 	}
